@@ -374,7 +374,7 @@ func TestVerifC03ObfsGecko(t *testing.T) {
 		// ~16 KiB, far above the 2 KiB packet buffer), shuffled with duplicates, read into buffers of
 		// different sizes; then 50 sources x 8 messages x 8 big chunks all pending at once (~5 MB of
 		// pending chunks) before they complete.
-		if !panicked && i%12 == 1 && !flood {
+		if !panicked && i%k.N(12, 60) == 1 && !flood {
 			maxChunk := geckoBufferSize - geckoHeaderSize
 			if fullStack {
 				maxChunk -= smSaltLen
